@@ -3,6 +3,7 @@ CONSTANTS
   Sizes = {0, 36, 4096}
   MaxOps = 4
   MaxSets = 2
+  Limits = {1000000}
   Defects = {"OnlyFinalUpdate"}
 SPECIFICATION Spec
 INVARIANTS NoError RoundTrip TablesEqual SizeBound SensitiveKept
